@@ -1,7 +1,7 @@
 (* C02/Properties.v — property theorems (Repaired model; Head = /repo HEAD) and refutation witnesses (Defective =
    the tree before any fix).
    Each theorem is closed by [exact] of a lemma from Proofs.v (or vm_compute for concrete witnesses). *)
-From OV Require Import Common.Base C02.Model C02.Proofs.
+From OV Require Import Common.Base C02.Model C02.Proofs C02.HeadSafe.
 Open Scope N_scope.
 
 (* Release frees only the releasing session's own leases: every release path of the model — Release by pool
@@ -233,7 +233,7 @@ Print Assumptions C02_ipoe_recorded_is_told.
    unresolved answers d5fadd1, pending ACK b04c868, nil pool d114f02; still open: unchecked release, untracked
    out-of-pool statics, VRF-blind containment walk / override, restore keeping conflicting addresses).
    [reach_benign]: at every step of the history HEAD has exactly the successors of the Repaired model, i.e. none of
-   the recorded known-finding triggers fires at that step (checkable per step; the driver does it for every case).
+   the open-finding triggers fires at that step (the driver evaluates exactly this per case, mode "benign").
    C02_head_triggers characterises the triggers at the primitives: outside them the variants coincide. *)
 Theorem C02_head_told_is_recorded :
   forall ps ss st,
@@ -284,6 +284,71 @@ Proof.
   split; [exact trigger_override|exact trigger_restore].
 Qed.
 Print Assumptions C02_head_triggers.
+
+(* ------------------------------------------------------------------ HEAD, input-level condition *)
+(* [safe_step st o] (HeadSafe.v) is a boolean over the pool signatures, the AAA answer the op carries, the addresses
+   the session already has and - for releases - the leases of the slots to be released: every supplied address lies
+   in a pool of the subscriber's VRF and in no pool of another VRF, overrides name no foreign-VRF pool, a release
+   touches only slots that are free or leased to the releasing session, the out-of-pool ledger is empty.  Under it
+   the code at HEAD takes exactly the steps of the Repaired model (the primitive-level trigger lemmas lifted to
+   [step], every op except Restart).  The driver evaluates the hypothesis of the reach_benign theorems literally
+   (mode "benign": step Head st o = step Repaired st o by structural equality) and reports the measured share of
+   generated histories in the evidence (distribution: head_benign_share). *)
+Theorem C02_head_step_safe :
+  forall st o, reg_ok (st_reg st) -> safe_step st o = true -> step Head st o = step Repaired st o.
+Proof. exact head_step_safe. Qed.
+Print Assumptions C02_head_step_safe.
+
+Theorem C02_head_safe_is_benign :
+  forall ps ss st,
+  NoDup (map pool_id ps) -> Forall pool_wf ps -> kinds_ok (mkReg ps []) -> resettable (mkReg ps []) ->
+  NoDup (map s_id ss) -> Forall fresh_sess ss ->
+  reach_safe (init_state ps ss) st -> reach_benign (init_state ps ss) st.
+Proof. exact reach_safe_benign. Qed.
+Print Assumptions C02_head_safe_is_benign.
+
+(* uniqueness for the code at HEAD on every history whose steps meet the input-level condition *)
+Theorem C02_head_unique_safe :
+  forall ps ss st,
+  NoDup (map pool_id ps) -> Forall pool_wf ps -> kinds_ok (mkReg ps []) -> resettable (mkReg ps []) ->
+  pools_disjoint (mkReg ps []) ->
+  NoDup (map s_id ss) -> Forall fresh_sess ss ->
+  reach_safe (init_state ps ss) st ->
+  forall s1 s2 f x, In s1 (st_sess st) -> In s2 (st_sess st) -> s_vrf s1 = s_vrf s2 ->
+    holds s1 f = Some x -> holds s2 f = Some x -> s1 = s2.
+Proof. exact head_unique_safe. Qed.
+Print Assumptions C02_head_unique_safe.
+
+(* non-vacuity of reach_safe / reach_benign: AAA static inside the pool, dynamic allocation, IPCP, DHCPRELEASE,
+   PPPoE terminate and a re-connect that is given the released address - every step meets the condition *)
+Definition w6_ps := [new_pool F4 1 0 0 (GRange a1 a2 [])].
+Definition w6_ss := [new_sess 1 true (Some 0) None 1; new_sess 2 false (Some 0) None 2; new_sess 3 true (Some 0) None 3].
+Definition w6_ops := [PA 1 0 (Some a2) None None None None None; ID true true None 2 0 None None; PI 1 (Some a2);
+                      IR 2; PT 1; PA 3 0 None None None None None None].
+Example C02_head_safe_nonvacuous :
+  NoDup (map pool_id w6_ps) /\ Forall pool_wf w6_ps /\ kinds_ok (mkReg w6_ps []) /\ resettable (mkReg w6_ps []) /\
+  pools_disjoint (mkReg w6_ps []) /\
+  NoDup (map s_id w6_ss) /\ Forall fresh_sess w6_ss /\
+  (let st := run_first Head (init_state w6_ps w6_ss) w6_ops in
+   reach_safe (init_state w6_ps w6_ss) st /\ reach_benign (init_state w6_ps w6_ss) st /\
+   holds_of st 1 F4 = None /\ holds_of st 2 F4 = None /\ holds_of st 3 F4 = Some (a1, 0)).
+Proof.
+  assert (H1 : NoDup (map pool_id w6_ps)) by (simpl; constructor; [simpl; tauto|constructor]).
+  assert (H2 : Forall pool_wf w6_ps) by (constructor; [apply new_pool_wf_range|constructor]).
+  assert (H3 : kinds_ok (mkReg w6_ps [])) by (intros p [<-|[]] _ sl; reflexivity).
+  assert (H4 : resettable (mkReg w6_ps [])) by (apply range_resettable; intros p [<-|[]]; eexists _, _, _; reflexivity).
+  assert (H6 : NoDup (map s_id w6_ss)).
+  { simpl. repeat constructor; simpl; intuition discriminate. }
+  assert (H7 : Forall fresh_sess w6_ss) by (repeat constructor; apply fresh_new).
+  assert (HS : reach_safe (init_state w6_ps w6_ss) (run_first Head (init_state w6_ps w6_ss) w6_ops)).
+  { apply all_safe_reach; [constructor|vm_compute; reflexivity]. }
+  split; [exact H1|]. split; [exact H2|]. split; [exact H3|]. split; [exact H4|].
+  split; [intros p q x [<-|[]] [<-|[]] _ _ _ _; reflexivity|].
+  split; [exact H6|]. split; [exact H7|].
+  split; [exact HS|]. split; [apply reach_safe_benign; assumption|].
+  vm_compute. repeat split; reflexivity.
+Qed.
+Print Assumptions C02_head_safe_nonvacuous.
 
 (* ------------------------------------------------------------------ delegated prefixes do not OVERLAP *)
 (* Two sessions of one VRF whose delegated prefixes lie inside PD pools of that VRF (well-formed geometry; the
